@@ -189,7 +189,7 @@ Proof.
   split; [|split; [|split; [|split; [|split]]]].
   - unfold cur_push. rewrite checked_eq by (assumption || reflexivity).
     rewrite (tailok_not_self _ _ _ _ Ht). cbn [bind].
-    rewrite load_eq by assumption. cbn [bind snd alloc fst].
+    rewrite load_eq by assumption. cbn [bind snd alloc fst]. rewrite g_push_added_link.
     rewrite load_eq by (rewrite app_length; cbn [length]; lia). cbn [bind fst snd].
     rewrite store_eq by (rewrite app_length; cbn [length]; lia). rewrite g_push_newlink. reflexivity.
   - eapply wf_rebuild; [exact Hwf|rewrite upd_length by lia; lia| | | |].
@@ -230,7 +230,7 @@ Proof.
   unfold cur_set, cur_push. rewrite (at_end_ok _ _ _ Ht). cbn [bind hdlink is_nil]. unfold set_atend.
   rewrite checked_eq by (assumption || reflexivity). rewrite (tailok_not_self _ _ _ _ Ht). cbn [bind].
   rewrite load_eq by assumption. cbn [bind snd]. rewrite (tailok_lnk _ _ _ _ Ht). cbn [hdlink].
-  cbn [alloc bind fst snd].
+  rewrite g_push_added_link. cbn [alloc bind fst snd].
   assert (Hl : a < length (h ++ [(v, Nil)])) by (rewrite app_length; cbn; lia).
   rewrite !load_eq by assumption. cbn [bind fst snd]. rewrite g_push_newlink. reflexivity.
 Qed.
